@@ -116,7 +116,12 @@ def run_rebuild(case):
         case = _subst(case, sbx)
         P, v = case["P"], case["version"]
         trees = [case["tree"]] + list(case.get("more_trees", []))
-        rec = {"id": case["id"], "op": "rebuild", "clauses": case["clauses"], "version": v, "P": P,
+        clauses = list(case["clauses"])
+        if case.get("file_arg") or case.get("nested_search"):
+            # the enumeration then contains a candidate twice / in another order than the record says:
+            # the implementation-model comparison is not meaningful for these scenarios
+            clauses = [c for c in clauses if not c.startswith("M")]
+        rec = {"id": case["id"], "op": "rebuild", "clauses": clauses, "version": v, "P": P,
                "status": "ok", "count": -1, "files": [], "written": [], "sources_unchanged": True,
                "metas_unchanged": True, "outside_ops": [], "outside_changed": [], "denied": [], "runs": 1,
                "present_after": 0, "ntorrents": len(trees), "stream_order": []}
@@ -184,6 +189,14 @@ def run_rebuild(case):
                 write_file(dest_path(ti, f), b)
                 pre[(ti, fi)] = b
         os.makedirs(os.path.join(sbx, "abs"), exist_ok=True)
+        if case.get("file_arg"):          # one search argument is the path of a candidate FILE
+            for dp, dns, fns in os.walk(sdirs[0]):
+                dns.sort()
+                if fns and "zz-unrelated" not in dp:
+                    sdirs = sdirs + [os.path.join(dp, sorted(fns)[0])]
+                    break
+        if case.get("nested_search"):     # the same directory is reachable through two search arguments
+            sdirs = sdirs + [os.path.join(sdirs[0], d) for d in sorted(os.listdir(sdirs[0]))[:1]]
         before = snapshot(sbx)
         # 4. run
         cwd0 = os.getcwd()
@@ -219,7 +232,7 @@ def run_rebuild(case):
             log = fstrace.stop()
             os.chdir(cwd0)
             if case.get("rel_paths") and not case.get("dest_dot"):
-                sdirs = [os.path.join(sbx, d) for d in sdirs]
+                sdirs = [os.path.join(sbx, d) if not os.path.isabs(d) else d for d in sdirs]
                 dest = os.path.join(sbx, dest)
             if case.get("dest_dot"):
                 dest = os.path.join(sbx, "dest")
